@@ -15,7 +15,7 @@ EXPLANATION = ('Error discipline at the race-exposed call sites (applied to path
                'never surface their error at all; a failed first publish attempt leads to mkdir + one retry; the classifier '
                'itself answers true for kind()==NotFound and raw_os_error()==ESTALE (evaluated constant); no panic is reachable '
                'only below the Err outcome of such a site. That every schedule is error-free is not decided.')
-FLOORS = {'R05.t': 20, 'R05.9': 2, 'R05.c': 3, 'R05.d': 1}
+FLOORS = {'R05.m': 4, 'R05.t': 20, 'R05.9': 2, 'R05.c': 3, 'R05.d': 1}
 
 TABLE = [
     ('#1 evictee vanished', r'.*', r'^std::fs::remove_file\((Base|Value)/Listed\)$', 'benign'),
@@ -95,6 +95,39 @@ def r05_t(ctx):
     return out
 
 
+IDEMPOTENT_MKDIR = ('std::fs::create_dir_all',)
+
+
+def r05_m(ctx):
+    """#13 directories created concurrently: mkdir must tolerate a peer creating the same directory."""
+    out = []
+    ek = [t for t in ctx.T if t.get('adt') == 'std::io::ErrorKind' and t.get('variants')]
+    ae = [i for i, v in enumerate(ek[0]['variants']) if v['name'] == 'AlreadyExists'][0] if ek else None
+    seen = set()
+    for name, key, mode in sites.lower_entries(ctx):
+        q = ctx.explore(key, mode=mode)
+        for e in q.prim_edges('ns_create_dir'):
+            ev = q.E[e][2]
+            d = sites.describe(ctx, q, ev)
+            if (name, d) in seen:
+                continue
+            seen.add((name, d))
+            ok = ev['path'] in IDEMPOTENT_MKDIR
+            if not ok:
+                errv = sites.err_value(ev)
+                ben = q.edges(lambda b: b['k'] == 'branch' and b.get('eq') == 1 and VAL[b['val']][0] == 'sym' and VAL[b['val']][1] == 'cmp'
+                              and errv in values.subs(b['val']) and any(VAL[s_][0] == 'agg' and VAL[s_][1] == 'std::io::ErrorKind' and
+                                                                        int(VAL[s_][2][1:]) == ae for s_ in values.subs(b['val'])))
+                errs = q.terminals(lambda t: t['k'] == 'ret' and t.get('variant') == 'Err')
+                rb = q.reach_fwd([q.E[x][1] for x in ben]) if ben else set()
+                ok = bool(ben) and not any(t in rb and errv in values.subs(q.g.term[t]['val']) for t in errs)
+            out.append(inst('R05.m', '%s|%s' % (name, d), ok,
+                            'directory creation tolerates a concurrent creator (%s)' % ev['path'] if ok else
+                            '%s %s fails with AlreadyExists when a peer creates the same directory between the check and the mkdir, '
+                            'and that error is returned to the caller' % (ev['site'][2], ev['path']), path=witness_path(q, e) if not ok else []))
+    return out
+
+
 def r05_9(ctx):
     return [inst('R05.9', i['key'].split('|', 1)[1], i['ok'], i['detail'], path=i['path']) for i in c02.r02_6(ctx)]
 
@@ -162,4 +195,4 @@ def r05_d(ctx):
 
 def run(ctx):
     from runner import collect
-    return collect(ctx, r05_t, r05_9, r05_c, r05_d)
+    return collect(ctx, r05_t, r05_m, r05_9, r05_c, r05_d)
